@@ -248,6 +248,8 @@ G_EDGES = [
     ("all", lambda t: {"rule": {"all": [{"matches": t}]}}),
     ("any", lambda t: {"rule": {"any": [{"matches": t}]}}),
     ("not", lambda t: {"rule": {"not": {"matches": t}}}),
+    # through a LOCAL utility of the global rule (same node): g -> its own util `loc` -> target
+    ("via-local-util", lambda t: {"rule": {"matches": "loc"}, "utils": {"loc": {"matches": t}}}),
     ("inside", lambda t: {"rule": {"inside": {"matches": t, "stopBy": "end"}}}),
     ("has", lambda t: {"rule": {"has": {"matches": t, "stopBy": "end"}}}),
     ("precedes", lambda t: {"rule": {"precedes": {"matches": t, "stopBy": "end"}}}),
@@ -346,7 +348,7 @@ def build_cases(tier):
             rule = {"id": "r1", "language": "JavaScript",
                     "rule": {"any": [{"kind": "identifier"}, {"kind": "arguments"}, {"kind": "program"}, {"kind": "number"}], "matches": "g0"}}
             files["rules/r1.yml"] = emit(rule) + "\n"
-            composite = all(e < 4 for e in combo)
+            composite = all(e < 5 for e in combo)
             route = "%s:%s" % ("cycle-composite-only" if composite else "cycle-via-other-operator", ">".join("G:" + p for p in canonical(parts)))
             cases.append(case("utildirs:cycle:len%d" % n, "global utility cycle %s" % ">".join(parts), files, SCAN, [], route))
     # H. raw byte strings in every file kind
